@@ -18,6 +18,7 @@ was 0 and the statement was false — `C16_frames_unguarded_crashes` keeps the w
 -/
 import ErgoVerif.Lemmas.Stream
 import ErgoVerif.Model.Link
+import ErgoVerif.Lemmas.Envelope
 namespace ErgoVerif.Props.C16Frames
 open ErgoVerif.Stream ErgoVerif.Generated.Proto
 
@@ -67,5 +68,54 @@ theorem C16_frames_unguarded_crashes :
 
 /-- … and so does a length field of 5 (magic and version pass, `buf.B[6]` is out of range) -/
 example : (readAll (unguardedCfg 0) RState.init [[78, 1, 0, 0, 0, 5, 0, 101]]).1.closed = some .crash := by decide
+
+/-! ## allocation of the compressed receive case (listed finding C16/D27) -/
+section Alloc
+open ErgoVerif.Envelope ErgoVerif.Frame
+
+/-- full statement: unpacking a compressed frame allocates memory in proportion to the frame -/
+def C16_frames_alloc_full : Prop := ∀ f : List UInt8, openAlloc f ≤ allocBudget f.length
+
+/-- refuted by the current code: a 13-byte frame (header, type Z, compression id, declared length
+    0xFFFFFFFF) makes the receive case allocate 4 GiB before it looks at any data -/
+theorem C16_frames_alloc_counterexample : ¬ C16_frames_alloc_full := by
+  intro h
+  have := h [78, 1, 0, 0, 0, 13, 0, 200, 100, 255, 255, 255, 255]
+  revert this
+  decide
+
+/-- what does hold: at most 4 GiB per frame, nothing for a frame without the 4 length bytes, and for
+    an envelope built by an honest sender exactly the real unpacked size -/
+theorem C16_frames_alloc_partial (f : List UInt8) :
+    openAlloc f < 2 ^ 32 ∧ (f.length < 13 → openAlloc f = 0) := by
+  constructor
+  · unfold openAlloc
+    split; · omega
+    split; · omega
+    have hl : (((f.drop zSkipBytes).take 4)).length ≤ 4 := by simp; omega
+    generalize ((f.drop zSkipBytes).take 4) = w at hl
+    match w, hl with
+    | [], _ => simp [beVal]
+    | [a], _ => have := a.toNat_lt; simp [beVal]; omega
+    | [a, b], _ => have := a.toNat_lt; have := b.toNat_lt; simp [beVal]; omega
+    | [a, b, c], _ => have := a.toNat_lt; have := b.toNat_lt; have := c.toNat_lt; simp [beVal]; omega
+    | [a, b, c, d], _ =>
+      have := a.toNat_lt; have := b.toNat_lt; have := c.toNat_lt; have := d.toNat_lt; simp [beVal]; omega
+  · intro h
+    unfold openAlloc
+    have h2 : f.length < zSkipBytes + 4 := by simpa [zSkipBytes] using h
+    split <;> simp [h2]
+
+theorem C16_frames_alloc_honest (cd : Codec) (t : Nat) (frame : List UInt8) (hl : frame.length < 2 ^ 32) :
+    openAlloc (envelope cd t frame) = frame.length := by
+  have hlen := envelope_length cd t frame
+  unfold openAlloc
+  rw [envelope_declared, hlen]
+  have h1 : ¬ (zPreallocate + 4 + (cd.comp t frame).length < 10) := by simp [zPreallocate]; omega
+  have h2 : ¬ (zPreallocate + 4 + (cd.comp t frame).length < zSkipBytes + 4) := by simp [zPreallocate, zSkipBytes]
+  simp only [h1, h2, if_false]
+  exact beVal_beBytes 4 _ (by simpa using hl)
+
+end Alloc
 
 end ErgoVerif.Props.C16Frames
